@@ -8,7 +8,8 @@ SIZES = {"quick": 4000, "thorough": 80000}
 BATCH = 4000
 RULE = ("op sequences over random (sampleCount, interval) geometries (one in eight the library default 20x10000 with a 2x1000 node), 1-3 derived "
         "views (valid and invalid), BaseStatNodes with GenerateReadStat views (same interval as the default metric with other sample counts, "
-        "non-tiling requests, other intervals) read through base.ReadStat, events "
+        "non-tiling requests, other intervals) read through base.ReadStat, array-level reads Count/Values/MinRt/MaxConcurrency, idle gaps around "
+        "k*2^32 ms (and 2^31, 2^33) +- {0,1,bucket,interval} from a bucket holding data in one case of seven, events "
         "pass/block/complete/error/rt + concurrency samples, time steps from {0,1,L-1,L,L+1,view,n*L,>array}; start times incl. "
         "near zero; non-trivial = at least one slot reset happened (time crossed a full array cycle with an add after it) and "
         "at least one non-zero read; distinct by (geometry, views, op-kind sequence)")
@@ -93,9 +94,30 @@ def gen_case(rng, cid):
     nops = rng.randint(10, 120)
     # one case in five walks the clock bucket by bucket, so that consecutive slots (incl. the wrap-around) are all live
     walk = rng.random() < 0.2
+    # one case in seven has idle gaps around multiples of 2^32 ms (and 2^31, 2^33) measured from a bucket that holds data:
+    # the age of a bucket is a 64-bit quantity although interval and bucket length are 32-bit
+    far = rng.random() < 0.15
+    last_add = None
+
+    def array_read():
+        g = rng.choice(["count", "count", "values", "aminrt", "amaxconc"])
+        ops.append(f"count {rng.choice(EVS)}" if g == "count" else g)
+
     for _ in range(nops):
         r = rng.random()
-        if r < 0.28:
+        if r < 0.28 and far and rng.random() < 0.3:
+            base = rng.choice([2 ** 32, 2 ** 32, 2 ** 32, 2 * 2 ** 32, 3 * 2 ** 32, 2 ** 31, 2 ** 33])
+            anchor = rng.choice([now, now - now % L] + ([last_add - last_add % L] * 3 if last_add is not None else []))
+            off = rng.choice([0, 1, max(0, L - 1), L, L + 1, max(0, I - 1), I, I + 1, -1, -L, rng.randint(0, I), rng.randint(0, I)])
+            if anchor + base + off > now:
+                now = anchor + base + off
+            ops.append(f"clock {now}")
+            # look at the array right away, sometimes first through the read that does not refresh
+            if rng.random() < 0.4:
+                ops.append("items 0 10000000000000")
+            for _ in range(rng.randint(1, 3)):
+                array_read()
+        elif r < 0.28:
             sc, Iv = rng.choice(views)
             if walk:
                 d = rng.choice([L, L, L, L, max(0, L - 1), L + 1, 1, 0, 2 * L, Iv // sc])
@@ -110,8 +132,10 @@ def gen_case(rng, cid):
             ev = rng.choice(EVS)
             amt = rng.choice([0, 1, 1, 2, 5, rng.randint(0, 100), 59999, 60000, 70000]) if ev == "rt" else rng.choice([0, 1, 1, 2, 3, rng.randint(1, 1000)])
             ops.append(f"add {ev} {amt}")
+            last_add = now
         elif r < 0.63:
             ops.append(f"conc {rng.choice([0, 1, 2, 7, -1, rng.randint(0, 50)])}")
+            last_add = now
         elif r < 0.65 and len(nodes) < 3 and rng.random() < 0.3:
             add_node()
         elif r < 0.80 and nodes:
@@ -141,12 +165,12 @@ def gen_case(rng, cid):
             else:
                 ops.append(f"read {k} {g}")
         elif r < 0.96:
-            ops.append(f"count {rng.choice(EVS)}")
+            array_read()
         else:
             lo = rng.choice([0, max(0, now - I), now - now % 1000 if now >= 1000 else 0])
             hi = rng.choice([now, now + I, 10 ** 13])
             ops.append(f"items {lo} {hi}")
-    return Case(cid, ops, tags=(f"n={n}", f"L={L}", f"t0={t0}") + (("default-geo",) if default_geo else ()) + (("walk",) if walk else ()))
+    return Case(cid, ops, tags=(f"n={n}", f"L={L}", f"t0={t0}") + (("default-geo",) if default_geo else ()) + (("walk",) if walk else ()) + (("far",) if far else ()))
 
 
 def gen(ctx, n):
@@ -182,7 +206,7 @@ def densify(ops, rng):
                 if g in ("sum", "prevqps", "maxbucket"):
                     out.append(f"read {k} {g} {rng.choice(EVS)}")
                 elif g == "count":
-                    out.append(f"count {rng.choice(EVS)}")
+                    out.append(rng.choice([f"count {rng.choice(EVS)}", "values", "aminrt", "amaxconc"]))
                 elif g == "items":
                     out.append("items 0 10000000000000")
                 else:
